@@ -98,8 +98,17 @@ def as_container(Q, names, kind, col_perm_seed):
     import pandas as pd
 
     if kind == 'df':
-        perm = np.random.RandomState(col_perm_seed).permutation(len(names))
-        return pd.DataFrame({names[j]: Q[:, j] for j in perm}, columns=[names[j] for j in perm]), not np.array_equal(perm, np.arange(len(names)))
+        rs = np.random.RandomState(col_perm_seed)
+        perm = rs.permutation(len(names))
+        frame = pd.DataFrame({names[j]: Q[:, j] for j in perm}, columns=[names[j] for j in perm])
+        style = col_perm_seed % 4            # row labels of the queried frame carry no information either
+        if style == 1:
+            frame.index = pd.Index(['q%d' % i for i in range(len(frame))], dtype=object)
+        elif style == 2:
+            frame.index = pd.Index(rs.permutation(len(frame)) + 50)
+        elif style == 3:
+            frame.index = pd.Index(np.zeros(len(frame), dtype=int))
+        return frame, not np.array_equal(perm, np.arange(len(names)))
     if kind == 'ndarray':
         return np.ascontiguousarray(Q), True
     if kind == 'ndarray_f':
